@@ -42,10 +42,20 @@ func (a *arena) slice(n, shape int, seed byte) []byte {
 		spare = 160
 	case 2:
 		pre, spare = 48, 160
+	case 4, 5:
+		// spare capacity that is all ZERO (make + append, a sub-slice of a fresh arena): 4 behind the length only,
+		// 5 in the middle of a zeroed array - code that looks at the spare bytes finds them "already padded"
+		spare = 160
+		if shape == 5 {
+			pre = 48
+		}
 	}
 	full := make([]byte, pre+n+spare)
 	for i := range full {
 		full[i] = canary
+		if shape >= 4 {
+			full[i] = 0
+		}
 	}
 	for i := 0; i < n; i++ {
 		switch a.fill {
@@ -86,6 +96,9 @@ func spareCap(shape, spare int) int {
 	}
 	return spare
 }
+
+// c12Shapes: the memory shapes of byte arguments (3 = all fields cut out of one frame buffer).
+var c12Shapes = []int{0, 1, 2, 3, 4, 5}
 
 func (a *arena) changed() string {
 	for i := range a.bufs {
@@ -558,7 +571,7 @@ func c12(r *ev.Run) {
 	base := [5]int{8, 16, 20, 5, 8}
 	for _, op := range ops {
 		if sliceOps[op] {
-			for shapeI := 0; shapeI < 4; shapeI++ {
+			for _, shapeI := range c12Shapes {
 				for f := 0; f < 5; f++ {
 					for _, ln := range c12Lens {
 						for sub := 0; sub < 4; sub++ {
@@ -618,7 +631,7 @@ func c12(r *ev.Run) {
 						trans++
 					}
 				}
-				for shapeI := 0; shapeI < 4; shapeI++ {
+				for _, shapeI := range c12Shapes {
 					for _, ln := range c12Lens {
 						l := base
 						l[(len(a)+len(b))%5] = ln
